@@ -71,9 +71,14 @@ func zzC12Agreement() {
 	ctx := context.WithValue(context.Background(), toolContextKey, tool)
 	setStandardHeaders(ctx, hdr, req)
 
-	// transit: HTTP strips optional whitespace (SP / HTAB) around field values
+	// transit: a field value holds no control characters (net/http refuses to send one that does: CTLs other than
+	// HTAB, and DEL), and HTTP strips optional whitespace (SP / HTAB) around it
 	for k, vs := range hdr {
 		for i, v := range vs {
+			for j := 0; j < len(v); j++ {
+				c := v[j]
+				vAssert((c >= 0x20 && c != 0x7F) || c == '\t', "C12.client-headers-are-transmittable")
+			}
 			vs[i] = strings.Trim(v, " \t")
 		}
 		hdr[k] = vs
